@@ -213,7 +213,18 @@ fn drive_plumbing(a: &Args, out: &mut Out, rng: &mut Rng) {
 pub fn drive_c08(a: &Args, out: &mut Out) {
     let mut rng = Rng::new(a.num("seed", 1));
     let thorough = a.thorough();
-    let pairs = pairs_for_faults(a, &mut rng);
+    // (8 stacks x every failing call x expiry indices multiply the trace size: the thorough tier
+    // widens the exhaustive bound moderately and adds longer random inputs; ~25 M events)
+    let pairs = if thorough {
+        let mut p = gen::exhaustive_pairs(3, 3);
+        p.extend(gen::exhaustive_pairs(2, 4));
+        for _ in 0..a.num("nrand", 1200) {
+            p.push(gen::random_pair(&mut rng, 30));
+        }
+        p
+    } else {
+        pairs_for_faults(a, &mut rng)
+    };
     for (i, (x, y)) in pairs.iter().enumerate() {
         let small = x.len() + y.len() <= 6;
         for alg in ALGS {
